@@ -23,7 +23,8 @@ RULE = ("case = byte content from the malformed stream (never starting with the 
 LOOKALIKE = [b'2023-02-30 00:00:00 x', b'0000-00-00 00:00:00', b'2023-13-01 25:61:61 y',
              b'2023-01-01 1', b'2023-01-01', b'9999-99-99 99:99:99', b'2023-00-10 00:00:00',
              b'[31/02/2023 00:00:00] z', b'13/32/23 00:00:00 w', b'2023-01-01 24:00:00 late',
-             b'2023-01-01T00:00:60']
+             b'2023-01-01T00:00:60', b'2023-01-01 00:00:99999999999999999999 big',
+             b'2023-01-01 00:00:61', b'2023-01-01 00:00:5']
 
 
 def gen_content(rng, tier):
@@ -78,7 +79,7 @@ def gen_scenario(rng, tier, big=False):
     if scn['decode_errors'] is None:
         del scn['decode_errors']
     if rng.random() < 0.6:
-        cons = [K.gen_since(rng, [gen.BASE], rng.choice(['std', 'std', 'multi', 'derived']))
+        cons = [K.gen_since(rng, [gen.BASE], rng.choice(['std', 'loose', 'loose', 'multi', 'derived']))
                 for _ in range(rng.choice([1, 2]))]
         scn['constraints'] = cons
         if rng.random() < 0.6:
